@@ -360,8 +360,8 @@ class SkelWalker:
             test = test.node
         if isinstance(test, nodes.Name):
             v = env.get(test.name)
-            if isinstance(v, tuple) and len(v) == 1 and isinstance(v[0], Item) and v[0].kind == "o" and v[0].text in ("True", "False"):
-                val = v[0].text == "True"
+            if isinstance(v, tuple) and len(v) == 1 and isinstance(v[0], Item) and v[0].kind == "o" and v[0].text in ("True", "False", "None"):
+                val = v[0].text == "True"  # (a parameter bound to the literal true / false / none at this call)
                 return (not val) if neg else val
         if isinstance(test, nodes.Const) and isinstance(test.value, bool):
             return (not test.value) if neg else test.value
@@ -420,8 +420,8 @@ class SkelWalker:
         literal gives that key (None: not such an expression, or no such key).  `d.items` and the like are dict methods, not keys."""
         if isinstance(e, nodes.Getattr):
             base, key, sub = e.node, e.attr, False
-        elif isinstance(e, nodes.Getitem) and isinstance(e.arg, nodes.Const) and isinstance(e.arg.value, str):
-            base, key, sub = e.node, e.arg.value, True
+        elif isinstance(e, nodes.Getitem) and SkelWalker._known_text(e.arg, env) is not None:
+            base, key, sub = e.node, SkelWalker._known_text(e.arg, env), True  # (`d["key"]`, `d[k]` with k bound to a text here)
         else:
             return None
         d = env.get(base.name) if isinstance(base, nodes.Name) else SkelWalker._entry(base, env)
@@ -911,7 +911,7 @@ class SkelWalker:
                 return v
             if v is None:
                 return ("obj", a.name)
-        if isinstance(a, nodes.Dict):
+        if isinstance(a, (nodes.Dict, nodes.List, nodes.Tuple)):
             return self._item_val(a, env, tname)
         ent = self._entry(a, env)
         if ent is not None:
